@@ -287,7 +287,7 @@ func TestDrv_C01Points(t *testing.T) {
 	r := newRand(101)
 	n := 120
 	if thorough() {
-		n = 1200
+		n = 600
 	}
 	type pt struct {
 		f, p, e int64
@@ -377,5 +377,28 @@ func TestDrv_C01Points(t *testing.T) {
 	}
 	sb = append(sb, ">>\n==========================================================================\n"...)
 	must(writeFile(filepath.Join(dir, "Pts.tla"), sb))
+	// the same points in chunks of 150 (Pts_0.tla, Pts_1.tla, ...), each again a module called Pts: Apalache's time grows
+	// faster than linearly with the number of points, so the orchestrator checks chunk by chunk
+	for c := 0; c*150 < len(pts); c++ {
+		end := (c + 1) * 150
+		if end > len(pts) {
+			end = len(pts)
+		}
+		var cb []byte
+		cb = append(cb, "------------------------------- MODULE Pts -------------------------------\nEXTENDS Integers, Sequences\n\n\\* @type: Seq({f: Int, p: Int, e: Int, h: Int, w: Int, s: Bool});\nPts == <<\n"...)
+		for i, q := range pts[c*150 : end] {
+			sep := ","
+			if i == end-c*150-1 {
+				sep = ""
+			}
+			b := "FALSE"
+			if q.s {
+				b = "TRUE"
+			}
+			cb = append(cb, fmt.Sprintf("  [f |-> %d, p |-> %d, e |-> %d, h |-> %d, w |-> %d, s |-> %s]%s\n", q.f, q.p, q.e, q.h, q.w, b, sep)...)
+		}
+		cb = append(cb, ">>\n==========================================================================\n"...)
+		must(writeFile(filepath.Join(dir, fmt.Sprintf("Pts_%d.tla", c)), cb))
+	}
 	writeJSON(filepath.Join(dir, "c01points.summary.json"), KV{"points": len(pts), "sample": fmt.Sprintf("%+v", pts[0])})
 }
